@@ -53,6 +53,8 @@ type sigRun struct {
 	pipe    bool // the result destination is a FIFO that the driver reads slowly (a slow sink)
 	gmp     int  // GOMAXPROCS of the pandora process (0: default)
 	pools   int  // instance pools, each with its own aggregator and result file
+	fail    bool // an extra pool ("vfail" provider, "vnop" gun) fails ~300 ms into the run: the CLI's error path;
+	// the signal (if any) is sent when pandora has logged "Engine run failed. Awaiting started tasks."
 }
 
 // slowPipe: a FIFO with a one-page buffer that is drained at a few MB/s: the aggregator's flush of
@@ -65,7 +67,7 @@ type slowPipe struct {
 	done chan struct{}
 }
 
-func newSlowPipe(path string) *slowPipe {
+func newSlowPipe(path string, delay time.Duration) *slowPipe {
 	if err := syscall.Mkfifo(path, 0644); err != nil {
 		panic(err)
 	}
@@ -87,7 +89,7 @@ func newSlowPipe(path string) *slowPipe {
 				p.data = append(p.data, buf[:n]...)
 				p.mu.Unlock()
 				if !stopping {
-					time.Sleep(500 * time.Microsecond)
+					time.Sleep(delay)
 				}
 				continue
 			}
@@ -134,7 +136,7 @@ func sigRunOne(cfg sigRun, bin, target string, w *vt.Writer) {
 		panic(err)
 	}
 	dur := "60s"
-	if cfg.sig == "none" {
+	if cfg.sig == "none" && !cfg.fail {
 		dur = fmt.Sprintf("%dms", cfg.afterMs)
 	}
 	if cfg.pools == 0 {
@@ -158,7 +160,11 @@ func sigRunOne(cfg sigRun, bin, target string, w *vt.Writer) {
 		}
 		result += "}"
 		if cfg.pipe {
-			sps = append(sps, newSlowPipe(out))
+			delay := 500 * time.Microsecond
+			if cfg.fail {
+				delay = 3 * time.Millisecond // the final flush of the healthy pool takes a few hundred ms
+			}
+			sps = append(sps, newSlowPipe(out, delay))
 		}
 		conf += fmt.Sprintf(`  - id: p%d
     gun: {type: http, target: %q}
@@ -168,13 +174,26 @@ func sigRunOne(cfg sigRun, bin, target string, w *vt.Writer) {
     startup: {type: once, times: %d}
 `, j, target, filepath.Join(dir, "ammo.uri"), result, cfg.rps/cfg.pools, dur, (cfg.inst+cfg.pools-1)/cfg.pools)
 	}
+	npools := cfg.pools
+	if cfg.fail {
+		badOut := filepath.Join(dir, "result_bad.out")
+		outs = append(outs, badOut)
+		conf += fmt.Sprintf(`  - id: bad
+    gun: {type: vnop}
+    ammo: {type: vfail, after: %dms}
+    result: {type: vphout, destination: %q}
+    rps: {type: const, ops: 10, duration: 60s}
+    startup: {type: once, times: 1}
+`, cfg.afterMs, badOut)
+		npools++
+	}
 	conf += "log: {level: error}\n"
 	confPath := filepath.Join(dir, "load.yaml")
 	if err := os.WriteFile(confPath, []byte(conf), 0644); err != nil {
 		panic(err)
 	}
 	w.Emit(map[string]interface{}{"ev": "Start", "run": cfg.run, "kind": cfg.kind, "sig": cfg.sig,
-		"after_ms": cfg.afterMs, "q": cfg.q, "rps": cfg.rps, "inst": cfg.inst, "pipe": cfg.pipe, "gomaxprocs": cfg.gmp, "pools": cfg.pools,
+		"after_ms": cfg.afterMs, "q": cfg.q, "rps": cfg.rps, "inst": cfg.inst, "pipe": cfg.pipe, "gomaxprocs": cfg.gmp, "pools": npools, "fail": cfg.fail,
 		"inst_total": cfg.pools * ((cfg.inst + cfg.pools - 1) / cfg.pools)})
 	logf, _ := os.Create(filepath.Join(dir, "pandora.log"))
 	defer logf.Close()
@@ -204,7 +223,40 @@ func sigRunOne(cfg sigRun, bin, target string, w *vt.Writer) {
 		w.Emit(map[string]interface{}{"ev": "Machinery", "run": cfg.run, "what": what, "log": string(b)})
 	}
 	var waitErr error
-	if cfg.sig != "none" {
+	signals := 0
+	if cfg.fail && cfg.sig != "none" {
+		// the pool "bad" fails by itself; ONE signal is sent as soon as pandora has logged that it is awaiting
+		// the started tasks of the failed run (the healthy pool's aggregator is draining into the slow pipe)
+		t0 := time.Now()
+		logPath := filepath.Join(dir, "pandora.log")
+		for {
+			lb, _ := os.ReadFile(logPath)
+			if bytes.Contains(lb, []byte("Awaiting started tasks")) {
+				break
+			}
+			select {
+			case waitErr = <-exited:
+				fail(fmt.Sprintf("vpandora exited before it logged the engine failure: %v", waitErr))
+				return
+			default:
+			}
+			if time.Since(t0) > 60*time.Second {
+				fail("vpandora did not log the engine failure within 60 s")
+				return
+			}
+			time.Sleep(500 * time.Microsecond)
+		}
+		sig := syscall.SIGINT
+		if cfg.sig == "TERM" {
+			sig = syscall.SIGTERM
+		}
+		// the process may have finished its tasks already: then the signal finds nobody (not an error)
+		if err := cmd.Process.Signal(sig); err == nil {
+			signals = 1
+		}
+		w.Emit(map[string]interface{}{"ev": "Signal", "run": cfg.run, "sig": cfg.sig, "returned_before": -1})
+	} else if cfg.sig != "none" {
+		signals = 1
 		// wait until pandora is shooting
 		t0 := time.Now()
 		for fileSize(retPath) == 0 {
@@ -258,11 +310,28 @@ func sigRunOne(cfg sigRun, bin, target string, w *vt.Writer) {
 		"entered": fileSize(enterPath), "returned": fileSize(retPath),
 		"lines": 0, "malformed": 0, "last_complete": true, "agg_returned": false, "dropped": 0, "agg_err": ""}
 	lb, _ := os.ReadFile(filepath.Join(dir, "pandora.log"))
-	ev["forced"] = bytes.Contains(lb, []byte("timeout exceeded")) || bytes.Contains(lb, []byte("Another signal received"))
+	// by design pandora does not wait after a SECOND signal or when its timeout expires.  "Another signal
+	// received" after a single signal is NOT such an exit
+	ev["timeout_exit"] = bytes.Contains(lb, []byte("timeout exceeded"))
+	ev["another_signal"] = bytes.Contains(lb, []byte("Another signal received"))
+	ev["signals"] = signals
+	ev["forced"] = bytes.Contains(lb, []byte("timeout exceeded")) || (bytes.Contains(lb, []byte("Another signal received")) && signals >= 2)
+	if cfg.fail {
+		// written by the failing provider right before it failed: reports that had returned by then
+		ev["failed_returned_before"] = -1
+		if fb, err := os.ReadFile(filepath.Join(dir, "fail.json")); err == nil {
+			var rec struct {
+				N int `json:"returned_before"`
+			}
+			if json.Unmarshal(bytes.TrimSpace(fb), &rec) == nil {
+				ev["failed_returned_before"] = rec.N
+			}
+		}
+	}
 	nlines, bad, complete := 0, 0, true
 	for j, out := range outs {
 		var b []byte
-		if cfg.pipe {
+		if cfg.pipe && j < len(sps) {
 			b = sps[j].finish()
 		} else {
 			b, _ = os.ReadFile(out)
@@ -304,7 +373,7 @@ func sigRunOne(cfg sigRun, bin, target string, w *vt.Writer) {
 				aggErr += rec.Err
 			}
 		}
-		ev["agg_returned"], ev["dropped"], ev["agg_err"] = nrec == cfg.pools, dropped, aggErr
+		ev["agg_returned"], ev["dropped"], ev["agg_err"] = nrec == npools, dropped, aggErr
 	}
 	w.Emit(ev)
 }
@@ -315,6 +384,7 @@ func aggSigMain(args []string) {
 	out := fs.String("out", "aggsig.ndjson", "trace file")
 	runs := fs.Int("runs", 12, "runs")
 	par := fs.Int("par", 4, "processes in flight")
+	failRuns := fs.Int("fail", 0, "extra runs in which one pool fails by itself (CLI error path), most with one signal while the tasks are awaited")
 	fs.Parse(args)
 	seed := aggSeed()
 	w := vt.Create(*out)
@@ -368,6 +438,13 @@ func aggSigMain(args []string) {
 		if n%5 == 2 {
 			cfg.pools = 2
 		}
+		cfgs = append(cfgs, cfg)
+	}
+	for n := 0; n < *failRuns; n++ {
+		cfg := sigRun{run: *runs + n + 1, rps: 3000 + 1000*r.Intn(3), inst: 4 + r.Intn(6), pools: 1, fail: true, pipe: true,
+			afterMs: 250 + r.Intn(500)}
+		cfg.kind = []string{"vphout", "vjsonlines"}[n%2]
+		cfg.sig = []string{"INT", "TERM", "INT", "none"}[n%4]
 		cfgs = append(cfgs, cfg)
 	}
 	sem := make(chan struct{}, *par)
